@@ -609,3 +609,479 @@ Section WithWF.
     Qed.
   End Acyclic.
 End WithWF.
+
+(** * Cycle: detachReferences *)
+Definition ext_of (t : table) (fks : list fkey) : list fkey := filter (fun f => negb (ptr_eqb (f_ref f) t)) fks.
+Definition not_addfk (c : tchange) : bool := negb (is_addfk c).
+
+(* rank of a change in a detached plan *)
+Definition rc (x : change) : nat :=
+  match x with
+  | AddTable _ _ => 0
+  | ModifyTable _ tcs => if forallb is_addfk tcs then 1 else 0
+  | DropTable _ _ => 2
+  end.
+
+Inductive pimage : change -> change -> Prop :=
+| pi_add t fks fks' : (forall f, In f fks' -> In f fks /\ ptr_eqb (f_ref f) t = true) ->
+    pimage (AddTable t fks) (AddTable t fks')
+| pi_drop t fks : ext_of t fks <> [] -> pimage (DropTable t fks) (ModifyTable t (map DropFK (ext_of t fks)))
+| pi_mod t tcs : filter not_addfk tcs <> [] -> pimage (ModifyTable t tcs) (ModifyTable t (filter not_addfk tcs)).
+
+Inductive dimage : change -> change -> Prop :=
+| di_add t fks : ext_of t fks <> [] -> dimage (AddTable t fks) (ModifyTable t (map AddFK (ext_of t fks)))
+| di_drop t fks fks' : (forall f, In f fks' -> In f fks /\ ptr_eqb (f_ref f) t = true) ->
+    dimage (DropTable t fks) (DropTable t fks')
+| di_mod t tcs : filter is_addfk tcs <> [] -> dimage (ModifyTable t tcs) (ModifyTable t (filter is_addfk tcs)).
+
+Lemma filter_nil_all {A} (p : A -> bool) l : filter p l = [] -> forall x, In x l -> p x = false.
+Proof.
+  induction l as [|a l IH]; intros H x Hx; [destruct Hx|]. simpl in H.
+  destruct (p a) eqn:E; [discriminate|]. destruct Hx as [<-|Hx]; [exact E|apply IH; assumption].
+Qed.
+
+Lemma det_planned_image src x : In x (det_planned src) -> pimage src x.
+Proof.
+  destruct src as [t fks|t fks|t tcs]; simpl.
+  - destruct (filter (fun f => negb (ptr_eqb (f_ref f) t)) fks) as [|e ext] eqn:E; intros [<-|[]].
+    + apply pi_add. intros f Hf. split; [exact Hf|].
+      pose proof (filter_nil_all _ fks E f Hf) as H. apply negb_false_iff in H. exact H.
+    + apply pi_add. intros f Hf. apply filter_In in Hf. exact Hf.
+  - destruct (filter (fun f => negb (ptr_eqb (f_ref f) t)) fks) as [|e ext] eqn:E; [intros []|intros [<-|[]]].
+    rewrite <- E. apply pi_drop. unfold ext_of. rewrite E. discriminate.
+  - destruct (filter (fun c => negb (is_addfk c)) tcs) as [|e rest] eqn:E; [intros []|intros [<-|[]]].
+    rewrite <- E. apply pi_mod. unfold not_addfk. rewrite E. discriminate.
+Qed.
+
+Lemma det_deferred_image src x : In x (det_deferred src) -> dimage src x.
+Proof.
+  destruct src as [t fks|t fks|t tcs]; simpl.
+  - destruct (filter (fun f => negb (ptr_eqb (f_ref f) t)) fks) as [|e ext] eqn:E; [intros []|intros [<-|[]]].
+    rewrite <- E. apply di_add. unfold ext_of. rewrite E. discriminate.
+  - destruct (filter (fun f => negb (ptr_eqb (f_ref f) t)) fks) as [|e ext] eqn:E; intros [<-|[]].
+    + apply di_drop. intros f Hf. split; [exact Hf|].
+      pose proof (filter_nil_all _ fks E f Hf) as H. apply negb_false_iff in H. exact H.
+    + apply di_drop. intros f [].
+  - destruct (filter is_addfk tcs) as [|e rest] eqn:E; [intros []|intros [<-|[]]].
+    rewrite <- E. apply di_mod. rewrite E. discriminate.
+Qed.
+
+Lemma detach_image cs x : In x (detachReferences cs) ->
+  exists src, In src cs /\ (pimage src x \/ dimage src x).
+Proof.
+  unfold detachReferences. intros H. apply in_app_or in H. destruct H as [H|H];
+    apply in_flat_map in H; destruct H as [src [Hs Hx]]; exists src; split; try exact Hs.
+  - left. apply det_planned_image. exact Hx.
+  - right. apply det_deferred_image. exact Hx.
+Qed.
+
+Lemma forallb_addfk_mapdrop l : l <> [] -> forallb is_addfk (map DropFK l) = false.
+Proof. destruct l; [congruence|reflexivity]. Qed.
+
+Lemma forallb_addfk_mapadd l : forallb is_addfk (map AddFK l) = true.
+Proof. induction l; simpl; [reflexivity|exact IHl]. Qed.
+
+Lemma forallb_addfk_rest tcs : filter not_addfk tcs <> [] -> forallb is_addfk (filter not_addfk tcs) = false.
+Proof.
+  intros H. destruct (forallb is_addfk (filter not_addfk tcs)) eqn:E; [|reflexivity]. exfalso.
+  rewrite forallb_forall in E. destruct (filter not_addfk tcs) as [|a l] eqn:El; [congruence|].
+  assert (Ha : In a (filter not_addfk tcs)) by (rewrite El; left; reflexivity).
+  apply filter_In in Ha. destruct Ha as [_ Ha]. unfold not_addfk in Ha.
+  rewrite (E a (or_introl eq_refl)) in Ha. discriminate.
+Qed.
+
+Lemma forallb_addfk_fks tcs : forallb is_addfk (filter is_addfk tcs) = true.
+Proof. apply forallb_forall. intros x Hx. apply filter_In in Hx. tauto. Qed.
+
+Lemma pimage_rank src x : pimage src x -> rc x = 0 /\ is_drop x = false /\ nm x = nm src.
+Proof.
+  intros H. destruct H; simpl.
+  - repeat split.
+  - rewrite forallb_addfk_mapdrop by assumption. repeat split.
+  - rewrite forallb_addfk_rest by assumption. repeat split.
+Qed.
+
+Lemma dimage_rank src x : dimage src x ->
+  ((rc x = 1 /\ is_drop x = false) \/ (rc x = 2 /\ is_drop x = true)) /\ nm x = nm src.
+Proof.
+  intros H. destruct H; simpl.
+  - rewrite forallb_addfk_mapadd. split; [left; split; reflexivity|reflexivity].
+  - split; [right; split; reflexivity|reflexivity].
+  - rewrite forallb_addfk_fks. split; [left; split; reflexivity|reflexivity].
+Qed.
+
+Lemma SS_const (r : change -> nat) k l : (forall x, In x l -> r x = k) -> StronglySorted (rle r) l.
+Proof.
+  induction l as [|a l IH]; intros H; [constructor|]. constructor.
+  - apply IH. intros x Hx. apply H. right. exact Hx.
+  - apply Forall_forall. intros y Hy. unfold rle. rewrite (H a (or_introl eq_refl)), (H y (or_intror Hy)). lia.
+Qed.
+
+Lemma detach_sorted cs : StronglySorted (rle rc) (partition_changes (detachReferences cs)).
+Proof.
+  unfold partition_changes, detachReferences. rewrite !filter_app.
+  assert (HP : forall x, In x (flat_map det_planned cs) -> rc x = 0 /\ is_drop x = false).
+  { intros x Hx. apply in_flat_map in Hx. destruct Hx as [src [_ Hx]].
+    destruct (pimage_rank src x (det_planned_image src x Hx)) as [H1 [H2 _]]. split; assumption. }
+  assert (HD : forall x, In x (flat_map det_deferred cs) ->
+             (rc x = 1 /\ is_drop x = false) \/ (rc x = 2 /\ is_drop x = true)).
+  { intros x Hx. apply in_flat_map in Hx. destruct Hx as [src [_ Hx]].
+    apply (proj1 (dimage_rank src x (det_deferred_image src x Hx))). }
+  apply SS_app.
+  - apply SS_app.
+    + apply SS_const with (k := 0). intros x Hx. apply filter_In in Hx. apply HP. tauto.
+    + apply SS_const with (k := 1). intros x Hx. apply filter_In in Hx. destruct Hx as [Hx Hn].
+      apply negb_true_iff in Hn. destruct (HD x Hx) as [[H _]|[_ H]]; [exact H|congruence].
+    + intros x y Hx Hy. apply filter_In in Hx. apply filter_In in Hy. unfold rle.
+      rewrite (proj1 (HP x (proj1 Hx))). lia.
+  - apply SS_const with (k := 2). intros x Hx. apply in_app_or in Hx. destruct Hx as [Hx|Hx]; apply filter_In in Hx; destruct Hx as [Hx Hd].
+    + destruct (HP x Hx) as [_ H]. congruence.
+    + destruct (HD x Hx) as [[_ H]|[H _]]; [congruence|exact H].
+  - intros x y Hx Hy. unfold rle.
+    assert (Hrx : rc x <= 1).
+    { apply in_app_or in Hx. destruct Hx as [Hx|Hx]; apply filter_In in Hx; destruct Hx as [Hx Hn].
+      - rewrite (proj1 (HP x Hx)). lia.
+      - apply negb_true_iff in Hn. destruct (HD x Hx) as [[H _]|[_ H]]; [lia|congruence]. }
+    assert (Hry : rc y = 2).
+    { apply in_app_or in Hy. destruct Hy as [Hy|Hy]; apply filter_In in Hy; destruct Hy as [Hy Hd].
+      - destruct (HP y Hy) as [_ H]. congruence.
+      - destruct (HD y Hy) as [[_ H]|[H _]]; [congruence|exact H]. }
+    lia.
+Qed.
+
+(* table-level effects are kept by detaching, in order *)
+Lemma planned_adds cs : flat_map adds (flat_map det_planned cs) = flat_map adds cs.
+Proof.
+  induction cs as [|x cs IH]; simpl; [reflexivity|]. rewrite flat_map_app, IH. f_equal.
+  destruct x as [t fks|t fks|t tcs]; simpl.
+  - destruct (filter _ fks); reflexivity.
+  - destruct (filter _ fks); reflexivity.
+  - destruct (filter _ tcs); reflexivity.
+Qed.
+
+Lemma deferred_adds cs : flat_map adds (flat_map det_deferred cs) = [].
+Proof.
+  induction cs as [|x cs IH]; simpl; [reflexivity|]. rewrite flat_map_app, IH.
+  destruct x as [t fks|t fks|t tcs]; simpl.
+  - destruct (filter _ fks); reflexivity.
+  - destruct (filter _ fks); reflexivity.
+  - destruct (filter _ tcs); reflexivity.
+Qed.
+
+Lemma planned_drops cs : flat_map drops (flat_map det_planned cs) = [].
+Proof.
+  induction cs as [|x cs IH]; simpl; [reflexivity|]. rewrite flat_map_app, IH.
+  destruct x as [t fks|t fks|t tcs]; simpl.
+  - destruct (filter _ fks); reflexivity.
+  - destruct (filter _ fks); reflexivity.
+  - destruct (filter _ tcs); reflexivity.
+Qed.
+
+Lemma deferred_drops cs : flat_map drops (flat_map det_deferred cs) = flat_map drops cs.
+Proof.
+  induction cs as [|x cs IH]; simpl; [reflexivity|]. rewrite flat_map_app, IH. f_equal.
+  destruct x as [t fks|t fks|t tcs]; simpl.
+  - destruct (filter _ fks); reflexivity.
+  - destruct (filter _ fks); reflexivity.
+  - destruct (filter _ tcs); reflexivity.
+Qed.
+
+Lemma detach_adds cs : flat_map adds (detachReferences cs) = flat_map adds cs.
+Proof.
+  unfold detachReferences. rewrite flat_map_app, planned_adds, deferred_adds, app_nil_r. reflexivity.
+Qed.
+
+Lemma detach_drops cs : flat_map drops (detachReferences cs) = flat_map drops cs.
+Proof.
+  unfold detachReferences. rewrite flat_map_app, planned_drops, deferred_drops. reflexivity.
+Qed.
+
+Lemma names_flat_map (h : change -> list change) cs :
+  (forall x y, In y (h x) -> nm y = nm x) -> (forall x, length (h x) <= 1) ->
+  NoDup (map nm cs) -> NoDup (map nm (flat_map h cs)) /\ incl (map nm (flat_map h cs)) (map nm cs).
+Proof.
+  intros Hn Hl. induction cs as [|x cs IH]; simpl; intros Hd; [split; [constructor|intros a []]|].
+  inversion Hd as [|? ? Hx Hd']; subst. destruct (IH Hd') as [IH1 IH2].
+  rewrite map_app. split.
+  - apply NoDup_app_intro; [|exact IH1|].
+    + specialize (Hl x). destruct (h x) as [|a [|b l]]; simpl in *; [constructor|constructor; [intros []|constructor]|lia].
+    + intros n H1 H2. apply in_map_iff in H1. destruct H1 as [y [<- Hy]]. rewrite (Hn x y Hy) in H2.
+      apply Hx. apply IH2. exact H2.
+  - intros n H. apply in_app_or in H. destruct H as [H|H].
+    + apply in_map_iff in H. destruct H as [y [<- Hy]]. left. symmetry. apply Hn. exact Hy.
+    + right. apply IH2. exact H.
+Qed.
+
+Lemma det_planned_len x : length (det_planned x) <= 1.
+Proof.
+  destruct x as [t fks|t fks|t tcs]; simpl.
+  - destruct (filter _ fks); simpl; lia.
+  - destruct (filter _ fks); simpl; lia.
+  - destruct (filter _ tcs); simpl; lia.
+Qed.
+
+Lemma det_deferred_len x : length (det_deferred x) <= 1.
+Proof.
+  destruct x as [t fks|t fks|t tcs]; simpl.
+  - destruct (filter _ fks); simpl; lia.
+  - destruct (filter _ fks); simpl; lia.
+  - destruct (filter _ tcs); simpl; lia.
+Qed.
+
+Lemma ex_planned_add cs t fks : In (AddTable t fks) cs -> exists fks', In (AddTable t fks') (detachReferences cs).
+Proof.
+  intros H. unfold detachReferences.
+  assert (E : exists fks', In (AddTable t fks') (det_planned (AddTable t fks))).
+  { simpl. destruct (filter _ fks); eexists; left; reflexivity. }
+  destruct E as [fks' E]. exists fks'. apply in_or_app. left. apply in_flat_map. eexists; split; [exact H|exact E].
+Qed.
+
+Lemma ex_planned_dropfk cs t fks f :
+  In (DropTable t fks) cs -> In f fks -> ptr_eqb (f_ref f) t = false ->
+  In (ModifyTable t (map DropFK (ext_of t fks))) (detachReferences cs) /\ In f (ext_of t fks).
+Proof.
+  intros H Hf Hp.
+  assert (Hin : In f (ext_of t fks)) by (apply filter_In; split; [exact Hf|rewrite Hp; reflexivity]).
+  split; [|exact Hin]. unfold detachReferences. apply in_or_app. left. apply in_flat_map.
+  exists (DropTable t fks). split; [exact H|]. simpl. unfold ext_of in *.
+  destruct (filter (fun f0 => negb (ptr_eqb (f_ref f0) t)) fks); [destruct Hin|left; reflexivity].
+Qed.
+
+Lemma ex_planned_rest cs t tcs tc :
+  In (ModifyTable t tcs) cs -> In tc tcs -> is_addfk tc = false ->
+  In (ModifyTable t (filter not_addfk tcs)) (detachReferences cs) /\ In tc (filter not_addfk tcs).
+Proof.
+  intros H Htc Hp.
+  assert (Hin : In tc (filter not_addfk tcs)) by (apply filter_In; split; [exact Htc|unfold not_addfk; rewrite Hp; reflexivity]).
+  split; [|exact Hin]. unfold detachReferences. apply in_or_app. left. apply in_flat_map.
+  exists (ModifyTable t tcs). split; [exact H|]. simpl. unfold not_addfk in *.
+  destruct (filter (fun c => negb (is_addfk c)) tcs); [destruct Hin|left; reflexivity].
+Qed.
+
+Lemma NoDup_app_r {A} (l1 l2 : list A) : NoDup (l1 ++ l2) -> NoDup l2.
+Proof. induction l1 as [|a l1 IH]; simpl; intros H; [exact H|]. inversion H; subst. apply IH. assumption. Qed.
+
+Lemma adds_unique l t1 f1 t2 f2 :
+  NoDup (flat_map adds l) -> In (AddTable t1 f1) l -> In (AddTable t2 f2) l -> t_name t1 = t_name t2 ->
+  AddTable t1 f1 = AddTable t2 f2.
+Proof.
+  induction l as [|x l IH]; intros Hn H1 H2 He; [destruct H1|].
+  simpl in Hn. destruct H1 as [->|H1]; destruct H2 as [E2|H2].
+  - exact E2.
+  - exfalso. simpl in Hn. inversion Hn as [|? ? Hnot Hrest]; subst. apply Hnot. apply in_adds_iff. exists t2, f2. split; [exact H2|congruence].
+  - exfalso. subst x. simpl in Hn. inversion Hn as [|? ? Hnot Hrest]; subst. apply Hnot. apply in_adds_iff. exists t1, f1. split; [exact H1|congruence].
+  - apply IH; try assumption. apply NoDup_app_r in Hn. exact Hn.
+Qed.
+
+Lemma drops_unique l t1 f1 t2 f2 :
+  NoDup (flat_map drops l) -> In (DropTable t1 f1) l -> In (DropTable t2 f2) l -> t_name t1 = t_name t2 ->
+  DropTable t1 f1 = DropTable t2 f2.
+Proof.
+  induction l as [|x l IH]; intros Hn H1 H2 He; [destruct H1|].
+  simpl in Hn. destruct H1 as [->|H1]; destruct H2 as [E2|H2].
+  - exact E2.
+  - exfalso. simpl in Hn. inversion Hn as [|? ? Hnot Hrest]; subst. apply Hnot. apply in_drops_iff. exists t2, f2. split; [exact H2|congruence].
+  - exfalso. subst x. simpl in Hn. inversion Hn as [|? ? Hnot Hrest]; subst. apply Hnot. apply in_drops_iff. exists t1, f1. split; [exact H1|congruence].
+  - apply IH; try assumption. apply NoDup_app_r in Hn. exact Hn.
+Qed.
+
+Section Cyclic.
+  Variable cs : list change.
+  Variable c : cat.
+  Hypothesis HWF : WF cs.
+  Hypothesis Hcons : consistent c cs.
+  Hypothesis Hex : no_repoint_to_added cs.
+
+  Let L := detachReferences cs.
+
+  Lemma cyc_NoDup : NoDup L.
+  Proof.
+    unfold L, detachReferences.
+    destruct (names_flat_map det_planned cs) as [HP _];
+      [intros x y Hy; apply (pimage_rank x y (det_planned_image x y Hy))|apply det_planned_len|apply (wf_names cs HWF)|].
+    destruct (names_flat_map det_deferred cs) as [HD _];
+      [intros x y Hy; apply (dimage_rank x y (det_deferred_image x y Hy))|apply det_deferred_len|apply (wf_names cs HWF)|].
+    apply NoDup_app_intro; [apply NoDup_of_names; exact HP|apply NoDup_of_names; exact HD|].
+    intros x H1 H2. apply in_flat_map in H1. destruct H1 as [s1 [_ H1]]. apply in_flat_map in H2. destruct H2 as [s2 [_ H2]].
+    destruct (pimage_rank s1 x (det_planned_image s1 x H1)) as [R1 _].
+    destruct (dimage_rank s2 x (det_deferred_image s2 x H2)) as [[[R2 _]|[R2 _]] _]; lia.
+  Qed.
+
+  Lemma cyc_adds_nodup : NoDup (flat_map adds L).
+  Proof. unfold L. rewrite detach_adds. apply NoDup_adds. apply (wf_names cs HWF). Qed.
+
+  Lemma cyc_drops_nodup : NoDup (flat_map drops L).
+  Proof. unfold L. rewrite detach_drops. apply NoDup_drops. apply (wf_names cs HWF). Qed.
+
+  (* the kept foreign keys of a created / dropped table reference that table by name *)
+  Lemma self_name src t fks f : In src cs -> table_of src = t -> change_fks src = fks ->
+    In f fks -> ptr_eqb (f_ref f) t = true -> t_name (f_ref f) = t_name t.
+  Proof.
+    intros Hs <- <- Hf Hp. apply (wf_ptr cs HWF src f Hs Hf Hp).
+  Qed.
+
+  Lemma cyc_edges x y : In x L -> In y L -> x <> y -> dependsOn x y = true -> rc y < rc x.
+  Proof.
+    intros Hx Hy Hne Hd.
+    destruct (detach_image cs x Hx) as [sx [Hsx Ix]]. destruct (detach_image cs y Hy) as [sy [Hsy Iy]].
+    assert (Hsame : nm x = nm y -> sx = sy).
+    { intros E. apply (names_inj cs HWF); [assumption|assumption|].
+      destruct Ix as [Ix|Ix]; [apply pimage_rank in Ix|apply dimage_rank in Ix];
+      destruct Iy as [Iy|Iy]; [apply pimage_rank in Iy|apply dimage_rank in Iy| apply pimage_rank in Iy|apply dimage_rank in Iy];
+      intuition congruence. }
+    destruct x as [t1 f1|t1 f1|t1 tcs1]; destruct y as [t2 f2|t2 f2|t2 tcs2]; simpl in Hd; try discriminate.
+    - (* Add / Add: the kept keys are self references *)
+      exfalso. apply refTo_ex in Hd. destruct Hd as [f [Hf Hr]].
+      assert (Hself : t_name (f_ref f) = t_name t1).
+      { destruct Ix as [Ix|Ix]; inversion Ix; subst. destruct (H1 f Hf) as [Hin Hp].
+        apply (self_name (AddTable t1 fks) t1 fks f Hsx eq_refl eq_refl Hin Hp). }
+      apply Hne. apply (adds_unique L); [exact cyc_adds_nodup|exact Hx|exact Hy|congruence].
+    - (* Add / Drop *)
+      exfalso. apply Nat.eqb_eq in Hd. specialize (Hsame Hd).
+      destruct Ix as [Ix|Ix]; inversion Ix; subst; destruct Iy as [Iy|Iy]; inversion Iy.
+    - (* Add / Modify *)
+      exfalso. apply andb_true_iff in Hd. destruct Hd as [Hn Hd]. apply negb_true_iff in Hn. apply Nat.eqb_neq in Hn.
+      apply refTo_ex in Hd. destruct Hd as [f [Hf Hr]].
+      destruct Ix as [Ix|Ix]; inversion Ix; subst. destruct (H1 f Hf) as [Hin Hp].
+      pose proof (self_name (AddTable t1 fks) t1 fks f Hsx eq_refl eq_refl Hin Hp). congruence.
+    - (* Drop / Drop *)
+      exfalso. apply refTo_ex in Hd. destruct Hd as [f [Hf Hr]].
+      assert (Hself : t_name (f_ref f) = t_name t2).
+      { destruct Iy as [Iy|Iy]; inversion Iy; subst. destruct (H1 f Hf) as [Hin Hp].
+        apply (self_name (DropTable t2 fks) t2 fks f Hsy eq_refl eq_refl Hin Hp). }
+      apply Hne. apply (drops_unique L); [exact cyc_drops_nodup|exact Hx|exact Hy|congruence].
+    - (* Drop / Modify *)
+      simpl. destruct (forallb is_addfk tcs2); lia.
+    - (* Modify / Add *)
+      simpl. destruct (forallb is_addfk tcs1) eqn:Ef; [lia|exfalso].
+      apply orb_true_iff in Hd. destruct Hd as [Hd|Hd].
+      + apply Nat.eqb_eq in Hd. specialize (Hsame Hd).
+        destruct Ix as [Ix|Ix]; inversion Ix; subst; destruct Iy as [Iy|Iy]; inversion Iy; subst.
+        (* only the deferred ADD FOREIGN KEY modification shares the source of an AddTable *)
+        simpl in Ef. rewrite forallb_addfk_mapadd in Ef. discriminate.
+      + apply existsb_exists in Hd. destruct Hd as [tc [Htc Hd]]. destruct tc as [f| | |]; try discriminate.
+        destruct Ix as [Ix|Ix]; inversion Ix; subst.
+        * apply in_map_iff in Htc. destruct Htc as [g [Hg _]]. discriminate.
+        * apply filter_In in Htc. destruct Htc as [_ Htc]. discriminate.
+        * rewrite forallb_addfk_mapadd in Ef. discriminate.
+        * rewrite forallb_addfk_fks in Ef. discriminate.
+  Qed.
+
+  Lemma cyc_backward : backward (partition_changes L).
+  Proof.
+    apply (ranked_backward rc); [apply detach_sorted| |].
+    - apply (Permutation_NoDup (Permutation_sym (partition_perm L))). exact cyc_NoDup.
+    - intros x y Hx Hy. apply (proj1 (partition_in L x)) in Hx. apply (proj1 (partition_in L y)) in Hy.
+      apply cyc_edges; assumption.
+  Qed.
+
+  Lemma fmP {B} (f : change -> list B) n : In n (flat_map f (partition_changes L)) <-> In n (flat_map f L).
+  Proof.
+    pose proof (Permutation_flat_map f (partition_perm L)) as Hp. split; intros H.
+    - apply (Permutation_in _ Hp H).
+    - apply (Permutation_in _ (Permutation_sym Hp) H).
+  Qed.
+
+  (* the declared keys of an image are declared keys of its source *)
+  Lemma pimage_added src x f : pimage src x -> In f (added_fks x) -> In f (added_fks src).
+  Proof.
+    intros H Hf. destruct H; simpl in *.
+    - apply H. exact Hf.
+    - exfalso. apply in_flat_map in Hf. destruct Hf as [tc [Htc Hf]]. apply in_map_iff in Htc.
+      destruct Htc as [g [<- _]]. destruct Hf.
+    - apply in_flat_map in Hf. destruct Hf as [tc [Htc Hf]]. apply filter_In in Htc.
+      apply in_flat_map. exists tc. split; [tauto|exact Hf].
+  Qed.
+
+  Lemma dimage_added src x f : dimage src x -> In f (added_fks x) -> In f (added_fks src).
+  Proof.
+    intros H Hf. destruct H; simpl in *.
+    - apply in_flat_map in Hf. destruct Hf as [tc [Htc Hf]]. apply in_map_iff in Htc.
+      destruct Htc as [g [<- Hg]]. destruct Hf as [<-|[]]. apply filter_In in Hg. tauto.
+    - destruct Hf.
+    - apply in_flat_map in Hf. destruct Hf as [tc [Htc Hf]]. apply filter_In in Htc.
+      apply in_flat_map. exists tc. split; [tauto|exact Hf].
+  Qed.
+
+  (* a table created by the change set is created at rank 0 of the detached plan *)
+  Lemma created_rank0 n : In n (flat_map adds cs) ->
+    exists y, In y (partition_changes L) /\ adds y = [n] /\ rc y = 0.
+  Proof.
+    intros H. apply in_adds_iff in H. destruct H as [t [fks [Hin <-]]].
+    destruct (ex_planned_add cs t fks Hin) as [fks' Hy].
+    exists (AddTable t fks'). split; [apply partition_in; exact Hy|split; reflexivity].
+  Qed.
+
+  Lemma cyc_replay : exists c', replay (partition_changes L) c = Some c'.
+  Proof.
+    apply (ranked_replay_ok rc); try apply detach_sorted.
+    - apply (Permutation_NoDup (Permutation_sym (Permutation_flat_map adds (partition_perm L)))). exact cyc_adds_nodup.
+    - intros n Hn. apply (proj1 (fmP adds n)) in Hn. unfold L in Hn. rewrite detach_adds in Hn.
+      apply (cn_adds c cs Hcons n Hn).
+    - apply (Permutation_NoDup (Permutation_sym (Permutation_flat_map drops (partition_perm L)))). exact cyc_drops_nodup.
+    - intros n Hn. apply (proj1 (fmP drops n)) in Hn. unfold L in Hn. rewrite detach_drops in Hn.
+      apply (cn_drops c cs Hcons n Hn).
+    - (* declared foreign keys *)
+      intros x f Hx Hf. apply (proj1 (partition_in L x)) in Hx.
+      destruct (detach_image cs x Hx) as [src [Hsrc Im]].
+      assert (Hfs : In f (added_fks src)).
+      { destruct Im as [Im|Im]; [apply (pimage_added src x f Im Hf)|apply (dimage_added src x f Im Hf)]. }
+      split.
+      + intros Hd. apply (proj1 (fmP drops _)) in Hd. unfold L in Hd. rewrite detach_drops in Hd.
+        apply (wf_decl cs HWF src f Hsrc Hfs Hd).
+      + destruct (cn_parent c cs Hcons src f Hsrc Hfs) as [H|H]; [left; exact H|right].
+        destruct Im as [Im|Im]; inversion Im; subst.
+        * (* created table: the kept keys are self references *)
+          right. destruct (H0 f Hf) as [Hin Hp]. simpl.
+          rewrite (self_name (AddTable t fks) t fks f Hsrc eq_refl eq_refl Hin Hp). reflexivity.
+        * exfalso. simpl in Hf. apply in_flat_map in Hf. destruct Hf as [tc [Htc Hf]]. apply in_map_iff in Htc.
+          destruct Htc as [g [<- _]]. destruct Hf.
+        * (* in-place modification: only a re-pointed key can be declared here *)
+          exfalso. simpl in Hf. apply in_flat_map in Hf. destruct Hf as [tc [Htc Hf]]. apply filter_In in Htc.
+          destruct Htc as [Htc Hna]. destruct tc as [g|g|from to|k]; simpl in Hf; try (destruct Hf; fail).
+          -- discriminate.
+          -- destruct Hf as [<-|[]]. apply (Hex t tcs from to Hsrc Htc H).
+        * left. destruct (created_rank0 _ H) as [y [Hy [Ha Hr]]]. exists y. split; [exact Hy|split; [exact Ha|]].
+          rewrite Hr. simpl. rewrite forallb_addfk_mapadd. lia.
+        * destruct Hf.
+        * left. destruct (created_rank0 _ H) as [y [Hy [Ha Hr]]]. exists y. split; [exact Hy|split; [exact Ha|]].
+          rewrite Hr. simpl. rewrite forallb_addfk_fks. lia.
+    - (* modified tables *)
+      intros t tcs Hx. apply (proj1 (partition_in L _)) in Hx.
+      destruct (detach_image cs _ Hx) as [src [Hsrc Im]]. split.
+      + intros y Hy Hd. apply (proj1 (partition_in L y)) in Hy.
+        destruct (detach_image cs y Hy) as [sy [_ Iy]].
+        assert (Hry : rc y = 2).
+        { destruct Iy as [Iy|Iy]; [destruct (pimage_rank sy y Iy) as [_ [E _]]; congruence|].
+          destruct (dimage_rank sy y Iy) as [[[_ E]|[E _]] _]; [congruence|exact E]. }
+        rewrite Hry. simpl. destruct (forallb is_addfk tcs); lia.
+      + destruct Im as [Im|Im]; inversion Im; subst.
+        * left. apply (cn_drops c cs Hcons). apply in_drops_iff. exists t, fks. split; [exact Hsrc|reflexivity].
+        * left. apply (cn_mods c cs Hcons t tcs0 Hsrc).
+        * right. assert (Ha : In (t_name t) (flat_map adds cs)) by (apply in_adds_iff; exists t, fks; split; [exact Hsrc|reflexivity]).
+          destruct (created_rank0 _ Ha) as [y [Hy [Hay Hr]]]. exists y. split; [exact Hy|split; [exact Hay|]].
+          rewrite Hr. simpl. rewrite forallb_addfk_mapadd. lia.
+        * left. apply (cn_mods c cs Hcons t tcs0 Hsrc).
+    - (* dropped tables *)
+      intros p fks e Hx He Hp Hne. apply (proj1 (partition_in L _)) in Hx.
+      assert (Hpd : In (snd e) (flat_map drops cs)).
+      { rewrite Hp. rewrite <- detach_drops. apply in_drops_iff. exists p, fks. split; [exact Hx|reflexivity]. }
+      assert (Hne' : fst (fst e) <> snd e) by (rewrite Hp; exact Hne).
+      destruct (cn_live c cs Hcons e He Hpd Hne') as [y [Hy [Hny Hcov]]].
+      destruct y as [t fks0|t fks0|t tcs]; simpl in Hcov; [destruct Hcov| |]; unfold nm in Hny; simpl in Hny.
+      + destruct Hcov as [f [Hf [Hs Hr]]].
+        assert (Hpf : ptr_eqb (f_ref f) t = false).
+        { apply (ptr_false cs HWF (DropTable t fks0) f Hy Hf). unfold nm. simpl. congruence. }
+        destruct (ex_planned_dropfk cs t fks0 f Hy Hf Hpf) as [Hin Hfe].
+        exists (ModifyTable t (map DropFK (ext_of t fks0))). split; [apply partition_in; exact Hin|]. split.
+        * simpl. rewrite (proj2 (Nat.eqb_eq _ _) Hny). simpl. apply existsb_exists. exists (DropFK f).
+          split; [apply in_map; exact Hfe|simpl; apply Nat.eqb_eq; exact Hs].
+        * simpl. rewrite forallb_addfk_mapdrop; [lia|]. intros E. rewrite E in Hfe. destruct Hfe.
+      + apply existsb_exists in Hcov. destruct Hcov as [tc [Htc Hrm]].
+        assert (Hna : is_addfk tc = false) by (destruct tc; simpl in *; congruence).
+        destruct (ex_planned_rest cs t tcs tc Hy Htc Hna) as [Hin Hfe].
+        exists (ModifyTable t (filter not_addfk tcs)). split; [apply partition_in; exact Hin|]. split.
+        * simpl. rewrite (proj2 (Nat.eqb_eq _ _) Hny). simpl. apply existsb_exists. exists tc. split; assumption.
+        * simpl. rewrite forallb_addfk_rest; [lia|]. intros E. rewrite E in Hfe. destruct Hfe.
+  Qed.
+End Cyclic.
